@@ -17,7 +17,7 @@
 #include <aws/common/thread.h>
 
 #define NSLOT 64
-#define MAXOPS 40
+#define MAXOPS 160
 struct blk {
     uint8_t *p;
     size_t n;
@@ -120,7 +120,7 @@ static void do_ops(struct prog *pg) {
         } else {
             sscanf(op + 1, "%d:%lu", &slot, &a);
         }
-        slot = (slot % 16) + pg->k * 16;
+        slot = pg->k == 0 ? slot % NSLOT : (slot % 16) + pg->k * 16; /* main may use every slot, workers own 16 each */
         struct blk *bl = &slots[slot];
         if ((op[0] == 'A' || op[0] == 'C') && !bl->p) {
             size_t n = op[0] == 'A' ? a : a * b;
@@ -207,7 +207,13 @@ static void parse_ops(struct prog *pg, char **save) {
         strncpy(pg->ops[pg->nops++], o, 23);
     }
 }
+#ifdef VS_TSAN
+static int __lsan_do_recoverable_leak_check(void) {
+    return 0;
+}
+#else
 int __lsan_do_recoverable_leak_check(void);
+#endif
 
 static void scenario(char **lines, int nlines) {
     memset(slots, 0, sizeof(slots));
